@@ -307,6 +307,8 @@ def main(run, tier):
                        'comment token (syntactic frame obligation); every node kind that can carry comments prints them first; '
                        'placement matrix and pretty-form round trip bounded')
     run.floor = 300
+    from . import parsefwd
+    parsefwd.add(run, tier)
     from . import attrobl
     import contracts.frames as _fr
     attrobl.frame_obligations(run, _fr.COMMENT_CHANNEL)
